@@ -61,7 +61,18 @@ func checkC12(c *Ctx) {
 	c.rule("PASS-new-nodes-saved", "every keyed new node is queued and saved", 2)
 	c.rule("PASS-orphans-deleted", "every orphan handed to the pruning callback is deleted", 1)
 	c.rule("FLOW-rollback-range", "rollback deletes exactly the node keys of versions >= fromVersion", 2)
-	c.rule("PASS-index-maintenance", "all pending index additions/removals are written", 4)
+	c.rule("PASS-index-maintenance", "all pending index additions/removals are written; rollback reaches the rebuild that drops the index of erased versions", 4)
+	// which nodes count as orphans: shared subtrees are recognised by hash, and a shared root stays stored while it is re-keyed
+	c.rule("DOM-shared-by-hash", "a subtree is skipped as shared only on hash equality", 1)
+	if tow := l.Func("", "*nodeDB.traverseOrphansWithRootkeyCache"); tow == nil {
+		c.anchorMissing("DOM-shared-by-hash", "traverseOrphansWithRootkeyCache")
+	} else {
+		checkSharedByHash(c, "DOM-shared-by-hash", tow, func(v ssa.Value) bool {
+			return strings.Contains(roleOf(l, v, "", 0), ",arg1)#0")
+		})
+	}
+	checkRekeyOrder(c)
+	checkRebuildDecision(c, "PASS-index-maintenance")
 
 	callTo := func(fs ...*ssa.Function) func(ssa.Instruction) bool {
 		p := predStatic(fs...)
